@@ -26,9 +26,9 @@ _spec.loader.exec_module(_c01)
 def direct_scenarios(ctx, n):
     rng = ctx.rng
     out = []
-    for k in range(n):
+    for k in range(n + 28):
         run = 5000 + k
-        fam = k % 5
+        fam = k % 6 if k < n else 5      # the long-time-out family is judged on a median: it gets enough runs of its own
         nev = rng.randint(1, 14)
         kinds = ["r"] * nev
         if fam == 0:      # byte limit only / with count
@@ -46,6 +46,10 @@ def direct_scenarios(ctx, n):
             nev = rng.choice([2, 4, 6])
             kinds = ["r"] * nev
             sc = dict(workers=2, count=10, bytes=0, flush_ms=20, sizes=[1] * nev, order="fifo", stale=False, contend=True)
+        elif fam == 5:    # a lonely event right behind a batch that went out by size, with a LONG flush time-out: its batch is opened by
+            # Add at a random phase of the heartbeat; it must go out within the time-out plus one heartbeat period (100 ms)
+            kinds = ["r"] * 3
+            sc = dict(workers=1, count=2, bytes=0, flush_ms=1500, sizes=[1, 1, 1], order="fifo", stale=True, phase_ms=rng.randint(1, 400))
         else:             # staleness: fewer events than the count limit, nothing else ever arrives
             nev = rng.randint(1, 4)
             kinds = rng.choice([["r"] * nev, ["r"] * nev, ["c"] * nev, [rng.choice(["r", "c"]) for _ in range(nev)]])
@@ -54,6 +58,7 @@ def direct_scenarios(ctx, n):
         if sc["count"] == 0 and sc["bytes"] == 0:
             sc["count"] = 2
         sc.setdefault("contend", False)
+        sc.setdefault("phase_ms", 0)
         sc.update(run=run, name="direct-%d-%d" % (fam, run), kinds=kinds, adders=rng.choice([1, 1, 2, 3]) if fam < 3 else 1, seed=ctx.seed * 7919 + k)
         out.append(sc)
     return out
@@ -102,6 +107,23 @@ def run(ctx):
             ctx.drift += len(stale)
             vlib.log("warning: %d of %d staleness runs exceeded their bound (not reported)" % (len(stale), nstale))
             recs = [r for r in recs if r["kind"] != "batch_stale"]
+        # long flush time-out: how long did the lonely third event wait beyond the time-out?  One heartbeat period at most; judged on
+        # the median over the family (single samples on a loaded machine are not)
+        longruns = {s["run"] for s in scs if s.get("phase_ms")}
+        extra = []
+        for line in open(trace):
+            e = json.loads(line)
+            if e.get("ev") == "Stale" and e.get("run") in longruns and e.get("first") == 3:
+                extra.append(e["waited"] - 1500)
+        if longruns and len(extra) < len(longruns) // 2:
+            raise vlib.Infra("long-time-out staleness family: only %d of %d runs measured" % (len(extra), len(longruns)))
+        if extra:
+            extra.sort()
+            med = extra[len(extra) // 2]
+            ctx.extra["lonely_event_wait_beyond_flush_timeout_ms"] = {"runs": len(extra), "median": med, "max": extra[-1]}
+            if med > 100 + 150:
+                recs.append({"kind": "batch_stale_long_timeout", "median_beyond_timeout_ms": med, "max_ms": extra[-1], "runs": len(extra),
+                             "allowed_ms": "one heartbeat period (100) + 150 slack on the median"})
         ctx.classify(recs)
         ctx.sample(scs[0])
     # 2b. Stop vs Add
